@@ -10,6 +10,7 @@ import DarkluaModel.Shared.VisitorSound.Heap.HLocalFn
   body, the `until` condition included.
 -/
 namespace DarkluaModel.Sem.Heap
+variable {cx : Cx}
 
 def _root_.DarkluaModel.Expr.isAtom : Expr → Bool
   | .nil | .true | .false | .vararg | .num _ | .str _ | .var _ => Bool.true
@@ -32,7 +33,7 @@ theorem TotalPureEs.atoms : ∀ {vs : List Expr}, (∀ e ∈ vs, e.isAtom = true
 /-! ### statement-list plumbing -/
 
 theorem HR.ssPrefix {D D' : List String} {xs ys : List Stmt} : ∀ (pre : List Stmt), NoRefSs D pre →
-    HR D (.ss xs) (.ss ys) D' → HR D (.ss (pre ++ xs)) (.ss (pre ++ ys)) D'
+    HR cx D (.ss xs) (.ss ys) D' → HR cx D (.ss (pre ++ xs)) (.ss (pre ++ ys)) D'
   | [], _, h => h
   | s :: pre, hn, h =>
     .ssCons (.reflS (NoRefSs.cons.mp hn).1) (HR.ssPrefix pre (NoRefSs.cons.mp hn).2 h)
@@ -73,7 +74,7 @@ names are not referenced in the rest of the block, can be dropped (`LkB.dropLoca
 right to left — introduced (`LkB.addLocal`). -/
 theorem LkB.dropLocal {pre rest : List Stmt} {last : Option Last} {kind : LocalKind} {ns : List TName}
     {vs : List Expr} (hp : TotalPureEs vs) (hx : ∀ n ∈ ns.map TName.name, tailRefs n rest last = false) :
-    LkB (.mk (pre ++ .localAssign kind ns vs :: rest) last) (.mk (pre ++ rest) last) := by
+    (LkB cx) (.mk (pre ++ .localAssign kind ns vs :: rest) last) (.mk (pre ++ rest) last) := by
   intro D hn
   have hx1 : ∀ n ∈ ns.map TName.name, Stmt.refsList n rest = false := fun n h => by
     have := hx n h; simp only [tailRefs, Bool.or_eq_false_iff] at this; exact this.1
@@ -96,7 +97,7 @@ theorem LkB.dropLocal {pre rest : List Stmt} {last : Option Last} {kind : LocalK
 theorem LkB.addLocal {pre rest : List Stmt} {last : Option Last} {kind : LocalKind} {ns : List TName}
     {vs : List Expr} (hp : TotalPureEs vs) (hvs : ∀ D, NoRefEs D vs)
     (hx : ∀ n ∈ ns.map TName.name, tailRefs n rest last = false) :
-    LkB (.mk (pre ++ rest) last) (.mk (pre ++ .localAssign kind ns vs :: rest) last) := by
+    (LkB cx) (.mk (pre ++ rest) last) (.mk (pre ++ .localAssign kind ns vs :: rest) last) := by
   intro D hn
   have hx1 : ∀ n ∈ ns.map TName.name, Stmt.refsList n rest = false := fun n h => by
     have := hx n h; simp only [tailRefs, Bool.or_eq_false_iff] at this; exact this.1
@@ -118,7 +119,7 @@ theorem LkB.addLocal {pre rest : List Stmt} {last : Option Last} {kind : LocalKi
 theorem LkRep.dropLocal {pre rest : List Stmt} {last : Option Last} {kind : LocalKind} {ns : List TName}
     {vs : List Expr} {c : Expr} (hp : TotalPureEs vs)
     (hx : ∀ n ∈ ns.map TName.name, tailRefs n rest last = false) (hc : ∀ n ∈ ns.map TName.name, c.refs n = false) :
-    LkRep (.mk (pre ++ .localAssign kind ns vs :: rest) last, c) (.mk (pre ++ rest) last, c) := by
+    (LkRep cx) (.mk (pre ++ .localAssign kind ns vs :: rest) last, c) (.mk (pre ++ rest) last, c) := by
   intro D hnb hnc
   have hx1 : ∀ n ∈ ns.map TName.name, Stmt.refsList n rest = false := fun n h => by
     have := hx n h; simp only [tailRefs, Bool.or_eq_false_iff] at this; exact this.1
@@ -145,7 +146,7 @@ of the variables (hence of the cells). -/
 theorem LkS.permLocal {kind kind' : LocalKind} {ns ns' : List TName} {vs vs' : List Expr}
     (heq : LocalEquiv (ns.map TName.name) vs (ns'.map TName.name) vs')
     (hnr : ∀ D, NoRefEs D vs → NoRefEs D vs') :
-    LkS (.localAssign kind ns vs) (.localAssign kind' ns' vs') := fun D hn =>
+    (LkS cx) (.localAssign kind ns vs) (.localAssign kind' ns' vs') := fun D hn =>
   ⟨.genS fun _ hq => permLocal_sound heq (Heap.reflEs hq vs D (NoRefS.localAssign.mp hn)),
     NoRefS.localAssign.mpr (hnr D (NoRefS.localAssign.mp hn))⟩
 
@@ -153,7 +154,7 @@ theorem LkS.permLocal {kind kind' : LocalKind} {ns ns' : List TName} {vs vs' : L
 (`convert_local_function_to_assign`): the closure environments differ by the binding of `f` only. -/
 theorem LkS.localFnToAssign {kind kind' : LocalKind} {name : String} {ty : Option Ty} {f : FnBody}
     (hname : f.refs name = false) :
-    LkS (.localFn kind name f) (.localAssign kind' [.mk name ty] [.fn f]) := fun D hn => by
+    (LkS cx) (.localFn kind name f) (.localAssign kind' [.mk name ty] [.fn f]) := fun D hn => by
   have hf : NoRefF D f := NoRefS.localFn.mp hn
   refine ⟨.genS fun _ hq => localFn_to_assign_sound hq ?_, ?_⟩
   · intro x hx
